@@ -58,7 +58,12 @@ def rat(v):
 
 
 def close(a, b):
-    return isinstance(a, float) and math.isfinite(a) and math.isclose(a, b, rel_tol=1e-12, abs_tol=1e-300)
+    """a is the number b, whatever numeric type it comes in (float, int, Fraction, Decimal)"""
+    try:
+        a = float(a)
+    except Exception:  # pylint: disable=broad-except
+        return False
+    return not isinstance(a, bool) and math.isfinite(a) and math.isclose(a, b, rel_tol=1e-12, abs_tol=1e-300)
 
 
 def judge_ok(pu, text, unit, ref, exp):
@@ -102,13 +107,23 @@ def judge_ok(pu, text, unit, ref, exp):
             bad.append(("units.round_trip", v, type(ex).__name__))
     if unit == "%":
         # a percentage converted without a reference and back is the original value too ("converting back returns the original value" names every unit)
+        # (the statement fixes percentages "of the supplied reference": the round trip is judged with the reference 1; what the library
+        # does when no reference is supplied is compared only if it answers with a number)
         try:
-            u0 = pu.unitsToUserUnits(text)
-            back = pu.userUnitToUnits(u0, "%")
+            u1 = pu.unitsToUserUnits(text, 1)
+            back = pu.userUnitToUnits(u1, "%")
             if not (close(back, v) or back == v):
                 bad.append(("units.round_trip_percent", v, back))
         except Exception as ex:  # pylint: disable=broad-except
             bad.append(("units.round_trip_percent", v, type(ex).__name__))
+        try:
+            u0 = pu.unitsToUserUnits(text)
+            if isinstance(u0, (int, float)) and not isinstance(u0, bool):
+                back0 = pu.userUnitToUnits(u0, "%")
+                if not (close(back0, v) or back0 == v):
+                    bad.append(("units.round_trip_percent", v, back0))
+        except Exception:  # pylint: disable=broad-except
+            pass
     # document-attribute readers
     doc = Doc({"width": text})
     try:
@@ -186,8 +201,11 @@ def run(ctx):
         raise vlib.MachineryError("Units.tla Malformed and harness MALFORMED disagree: %r" % (set(MALFORMED) - set(kinds)))
     # None input
     ctx.count(("None",))
-    pn = pu.parseLengthWithUnits(None)
-    if not (pn is None or pn[0] is None):
+    try:
+        pn = pu.parseLengthWithUnits(None)
+    except Exception:  # pylint: disable=broad-except
+        pn = None                                   # the statement speaks of text; how "no text at all" is refused is not fixed
+    if not (pn is None or (isinstance(pn, (tuple, list)) and pn and pn[0] is None)):
         ctx.violation("units.no_numeric_part_parses_to_none", {"mode": "G", "text": None}, [None, None], repr(pu.parseLengthWithUnits(None)))
     # the code's own tables against each other through a value the spec knows: 1 unit
     ctx.traces += n
